@@ -37,7 +37,6 @@ pub open spec fn op_index(s: Seq<char>) -> int {
     else { 0 }
 }
 /// the nineteen operator names are pairwise distinct strings (proved once from the literals)
-#[verifier::rlimit(60)]
 pub proof fn lemma_operator_names()
     ensures
         op_index(operators::CONDITIONAL@) == 1,
@@ -60,6 +59,7 @@ pub proof fn lemma_operator_names()
         op_index(operators::NOT_STRICTLY_FALSE@) == 18,
         op_index(operators::IN@) == 19,
 {
+    broadcast use vstd::string::group_string_axioms;
     reveal_strlit("_?_:_");
     reveal_strlit("_&&_");
     reveal_strlit("_||_");
@@ -79,6 +79,25 @@ pub proof fn lemma_operator_names()
     reveal_strlit("_[_]");
     reveal_strlit("@not_strictly_false");
     reveal_strlit("@in");
+    assert(operators::CONDITIONAL@.len() == 5 && operators::CONDITIONAL@[0] == '_' && operators::CONDITIONAL@[1] == '?' && operators::CONDITIONAL@[2] == '_');
+    assert(operators::LOGICAL_AND@.len() == 4 && operators::LOGICAL_AND@[0] == '_' && operators::LOGICAL_AND@[1] == '&' && operators::LOGICAL_AND@[2] == '&');
+    assert(operators::LOGICAL_OR@.len() == 4 && operators::LOGICAL_OR@[0] == '_' && operators::LOGICAL_OR@[1] == '|' && operators::LOGICAL_OR@[2] == '|');
+    assert(operators::LOGICAL_NOT@.len() == 2 && operators::LOGICAL_NOT@[0] == '!' && operators::LOGICAL_NOT@[1] == '_');
+    assert(operators::SUBSTRACT@.len() == 3 && operators::SUBSTRACT@[0] == '_' && operators::SUBSTRACT@[1] == '-' && operators::SUBSTRACT@[2] == '_');
+    assert(operators::ADD@.len() == 3 && operators::ADD@[0] == '_' && operators::ADD@[1] == '+' && operators::ADD@[2] == '_');
+    assert(operators::MULTIPLY@.len() == 3 && operators::MULTIPLY@[0] == '_' && operators::MULTIPLY@[1] == '*' && operators::MULTIPLY@[2] == '_');
+    assert(operators::DIVIDE@.len() == 3 && operators::DIVIDE@[0] == '_' && operators::DIVIDE@[1] == '/' && operators::DIVIDE@[2] == '_');
+    assert(operators::MODULO@.len() == 3 && operators::MODULO@[0] == '_' && operators::MODULO@[1] == '%' && operators::MODULO@[2] == '_');
+    assert(operators::EQUALS@.len() == 4 && operators::EQUALS@[0] == '_' && operators::EQUALS@[1] == '=' && operators::EQUALS@[2] == '=');
+    assert(operators::NOT_EQUALS@.len() == 4 && operators::NOT_EQUALS@[0] == '_' && operators::NOT_EQUALS@[1] == '!' && operators::NOT_EQUALS@[2] == '=');
+    assert(operators::GREATER_EQUALS@.len() == 4 && operators::GREATER_EQUALS@[0] == '_' && operators::GREATER_EQUALS@[1] == '>' && operators::GREATER_EQUALS@[2] == '=');
+    assert(operators::LESS_EQUALS@.len() == 4 && operators::LESS_EQUALS@[0] == '_' && operators::LESS_EQUALS@[1] == '<' && operators::LESS_EQUALS@[2] == '=');
+    assert(operators::GREATER@.len() == 3 && operators::GREATER@[0] == '_' && operators::GREATER@[1] == '>' && operators::GREATER@[2] == '_');
+    assert(operators::LESS@.len() == 3 && operators::LESS@[0] == '_' && operators::LESS@[1] == '<' && operators::LESS@[2] == '_');
+    assert(operators::NEGATE@.len() == 2 && operators::NEGATE@[0] == '-' && operators::NEGATE@[1] == '_');
+    assert(operators::INDEX@.len() == 4 && operators::INDEX@[0] == '_' && operators::INDEX@[1] == '[' && operators::INDEX@[2] == '_');
+    assert(operators::NOT_STRICTLY_FALSE@.len() == 19 && operators::NOT_STRICTLY_FALSE@[0] == '@' && operators::NOT_STRICTLY_FALSE@[1] == 'n' && operators::NOT_STRICTLY_FALSE@[2] == 'o');
+    assert(operators::IN@.len() == 3 && operators::IN@[0] == '@' && operators::IN@[1] == 'i' && operators::IN@[2] == 'n');
 }
 
 pub enum BinOp { Add, Sub, Mul, Div, Rem, Eq, Ne, Lt, Le, Gt, Ge, In, Index }
